@@ -180,6 +180,18 @@ func streamInsulate(c *ctx) {
 			res = "changed"
 		}
 		w.Emit(fmt.Sprintf("insulate clone device %d", dev), res, "insulate/clone")
+		// ... an EQUAL value: every field as it was, whatever protocol name and time zone the device carries
+		for _, proto := range []string{"udp", "tcp", "any", "", "TCP"} {
+			for _, tz := range []*time.Location{nil, time.UTC, time.FixedZone("x", 3600)} {
+				d0 := uhppote.Device{Name: "n", DeviceID: dev, Address: types.ControllerAddrFrom(netip.AddrFrom4([4]byte{10, 1, 2, 3}), 54321), Doors: []string{"a", "b"}, TimeZone: tz, Protocol: proto}
+				c0 := d0.Clone()
+				res = "unchanged"
+				if c0.Name != d0.Name || c0.DeviceID != d0.DeviceID || c0.Address != d0.Address || c0.Protocol != d0.Protocol || c0.TimeZone != d0.TimeZone || fmt.Sprint(c0.Doors) != fmt.Sprint(d0.Doors) {
+					res = fmt.Sprintf("changed: %q %v -> %q %v", d0.Protocol, d0.TimeZone, c0.Protocol, c0.TimeZone)
+				}
+				w.Emit(fmt.Sprintf("insulate clone device-fields %d %q %v", dev, proto, tz), res, "insulate/clone")
+			}
+		}
 	}
 	// (b) arguments are never modified: covered by the ops stream (PutCard / SetTimeProfile compare
 	// their map arguments before and after); here the remaining slice / map arguments
